@@ -547,6 +547,47 @@ func recvStructField(c *core.Ctx, fa *ssa.FieldAddr) (vals []ssa.Value, fns []*s
 				} else {
 					return nil, nil, false
 				}
+			case *ssa.Parameter:
+				// a helper that is handed the received struct: every static call site passes a value received
+				// from a channel
+				pf := x.Parent()
+				k, sites, all := -1, 0, true
+				for i, q := range pf.Params {
+					if q == x {
+						k = i
+					}
+				}
+				for _, g := range c.SrcFuncs() {
+					for _, call := range core.Calls(g) {
+						if core.StaticCallee(call) != pf {
+							continue
+						}
+						sites++
+						args := core.CallArgs(call)
+						if k < 0 || k >= len(args) {
+							all = false
+							continue
+						}
+						recv := false
+						for _, o := range core.Origins(args[k], core.OriginOpts{}) {
+							switch y := o.(type) {
+							case *ssa.Extract:
+								_, recv = y.Tuple.(*ssa.Select)
+							case *ssa.UnOp:
+								recv = y.Op == token.ARROW
+							default:
+								recv = false
+							}
+							if !recv {
+								all = false
+							}
+						}
+					}
+				}
+				if sites == 0 || !all {
+					return nil, nil, false
+				}
+				fromChan = true
 			default:
 				return nil, nil, false
 			}
